@@ -110,6 +110,12 @@ func compareDatesForLetter(value, start, end Date) string {
 	startTime := start.Time().Truncate(24 * time.Hour)
 	endTime := end.Time().Truncate(24 * time.Hour)
 
+	// When the range we are comparing against is a single day the value can be
+	// equal to both the start and end. The end of a range prefers the end.
+	if value.IsEndOfRange && valueTime.Equal(endTime) {
+		return "E"
+	}
+
 	switch {
 	case valueTime.Equal(startTime):
 		return "e"
